@@ -1,5 +1,6 @@
 from ..datatypes import *
 from ..mesh_data import RawMeshData
+from ... import config
 from collections import deque
 import warnings
 
@@ -86,7 +87,10 @@ def export_medit(mesh : RawMeshData, path):
 
         if hasattr(mesh, "edges") and not mesh.edges.empty():
             f.write("Edges\n")
-            if mesh.edges.has_attribute("hard_edges"):
+            # edges that are sides of faces are regenerated at loading time : only the hard edges need to be written.
+            # This is not the case for polylines, nor when edges are not completed from faces
+            only_hard_edges = mesh.edges.has_attribute("hard_edges") and config.complete_edges_from_faces and mesh.dimensionality>1
+            if only_hard_edges:
                 f.write("{}\n".format(len(mesh.edges.get_attribute("hard_edges"))))
                 for e in mesh.edges.get_attribute("hard_edges"):
                     a,b = mesh.edges[e]
